@@ -1,6 +1,7 @@
 /- Line-protocol driver for C06 (glyph names, encodings, ToUnicode, simple fonts). -/
 import PdfVerif.Spec.SimpleFontTables
 import PdfVerif.Lemmas.Type1Roundtrip
+import PdfVerif.Lemmas.Utf8
 
 open PdfVerif PdfVerif.SimpleFont PdfVerif.SimpleFont.Inst
 
@@ -189,8 +190,19 @@ def parseSep (w : String) : Option (List SepItem) :=
     | _ => none)
 
 open PdfVerif.Lexer in
+def parseCodePoints (w : String) : Option (List Char) :=
+  if w == "-" then some [] else
+  (w.splitOn ",").mapM (fun h =>
+    match bytesOfHexChars (if h.length % 2 == 1 then '0' :: h.toList else h.toList) with
+    | some bs =>
+      let n := bs.foldl (fun acc b => acc * 256 + b.toNat) 0
+      if n < 0xD800 || (0xDFFF < n && n < 0x110000) then some (Char.ofNat n) else none
+    | none => none)
+
+open PdfVerif.Lexer in
 def parseSpelledName (w : String) : Option (List NameItem) :=
   if w == "-" then some [] else
+  if w.startsWith "N" then (parseCodePoints (w.drop 1).toString).map spellName else
   (w.splitOn ",").mapM (fun it =>
     match it.toList with
     | 'r' :: h => match bytesOfHexChars h with | some [c] => some (NameItem.raw c) | _ => none
@@ -301,6 +313,17 @@ def handle (line : String) : String :=
           -- the FULL specification (every code judged); `!` marks a cell outside the property's AGL domain
           (if Spec.judgedCodeX tables fd c then "" else "!") ++
             cpsStr (Spec.specTextP tables fd c) ++ "|" ++ ratToString (Spec.specWidthP tables fd c)))
+    | none => "bad-op"
+  | ["utf8enc", w] =>
+    match parseCodePoints w with
+    | some cs => hexOrDash (utf8Encode cs)
+    | none => "bad-op"
+  | ["utf8dec", hx] =>
+    match bytesOfHex hx with
+    | some bs =>
+      match utf8Chars bs with
+      | some cs => "V " ++ cpsStr (cs.map Char.toNat)
+      | none => "E"
     | none => "bad-op"
   | "t1write" :: padw :: itemws =>
     -- the header `writeHeader` writes for a spelling, and the right-hand side of theorem `t1_roundtrip`
